@@ -128,8 +128,14 @@ def check_idx(an, facts, b, I, C, vers_now):
         return False, "no-root"
     if C[0] == "at":
         R, ver = C[1], C[3]
-        if vers_now.get(R, ("e",)) != ver:
+        cur = vers_now.get(R, ("e",))
+        v = cur
+        while v != ver and (R, v) in an.setlen_prev:
+            v = an.setlen_prev[(R, v)]      # set_len keeps the buffer where it is
+        if v != ver:
             return False, "stale-pointer(%s)" % R
+        if cur != ver:
+            C = ("at", R, C[2], cur, C[4])
     bound = mk_len(C, an)
     crate = an.crate
     how = bounded(crate, an, facts, b, I, C, vers=vers_now)
@@ -179,11 +185,31 @@ def discharge_site(s, facts):
             return check_idx(an, facts, s.b, ("const", "usize", 0), C, an.ver_at_term[s.b])
         return False, ("deref-of", P)
     if k.endswith("unwrap_unchecked"):
-        X = s.ev["args"][0]
-        want = "Some" if "option" in k else "Ok"
-        if facts.holds(s.b, lambda rel: rel.variant(X) == want):
-            return True, "GUARD"
-        return False, ("need-variant", X, want)
+        return discharge_unwrap(s, facts)
+    if k == "call:alloc::vec::Vec::set_len":
+        return discharge_set_len(s, facts)
+    if k in ("call:core::ptr::write", "call:core::ptr::read"):
+        P = s.ev["args"][0]
+        C, idx0, kind = ptr_root(P)
+        s.ptr = P
+        Q = P[1] if P[0] == "pcast" else P
+        if Q[0] == "call" and Q[1] == "rawptr::add":
+            return True, "VIA-ADD"
+        return False, ("pointer-of-unknown-shape", P)
+    if k.startswith("cast:PointerWithExposedProvenance"):
+        b, i = s.stmt
+        t = an.stmt_terms.get((b, i))
+        src = t[2] if t and t[0] == "cast" else None
+        s.ptr = t
+        if src is not None and root_bounds(an.crate, an, t):
+            s.needs_live = True
+            return True, "CAPTURE"
+        return False, ("int-to-pointer", src)
+    if k.startswith("cast:Transmute"):
+        return False, "transmute"
+    if k.startswith("call:graaf::") or (s.ev.get("fn") or {}).get("local"):
+        s.callee = (s.ev["fn"].get("resolved") or s.ev["fn"]["path"])
+        return None, "CALLEE"
     return False, "unhandled"
 
 
@@ -475,10 +501,19 @@ def root_bounds(crate, an, ptrterm, depth=0):
         return []
     if kind == "buf":
         return [mk_len(C, an)]
+    out = []
+    # PTRLEN: pointer field paired with a length field of the same struct
+    if C is not None and C[0] == "mem" and C[3] is None:
+        ri = an.region_info.get(C[1])
+        if ri and ri["chain"] and len(ri["chain"]) == 1 and ri["chain"][0][0] in crate.prog.adts:
+            S, pf = ri["chain"][0]
+            for (pn, nn) in crate.inv.ptrlen(S):
+                if pn == pf:
+                    base = C[1][: -len("." + pf)]
+                    out.append(an.load_region(base + "." + nn, None, {}))
     cm = capture_map(crate, an)
     if cm is None or C is None:
-        return []
-    out = []
+        return out
     for pv, cv in cm.valmap:
         if C == cv:
             for pb in root_bounds(crate, cm.pan, pv, depth + 1):
@@ -486,3 +521,269 @@ def root_bounds(crate, an, ptrterm, depth=0):
                     if t not in out:
                         out.append(t)
     return out
+
+
+def discharge_unwrap(s, facts):
+    from .panics import always_variant
+    an = s.an
+    crate = an.crate
+    X = s.ev["args"][0]
+    want = "Some" if "option" in s.kind else "Ok"
+    if facts.holds(s.b, lambda rel: rel.variant(X) == want):
+        return True, "GUARD"
+    # BTreeMap::get after a dominating contains_key on the same map and key
+    if X[0] == "call" and X[1].endswith("BTreeMap::get") and want == "Some":
+        if facts.holds(s.b, lambda rel: rel.has(("contains", X[3][0], X[3][1]))):
+            return True, "GUARD"
+    if always_variant(crate, an, facts, X, want):
+        return True, "ALWAYS-" + want.upper()
+    if X[0] == "call" and X[1] == "core::convert::TryFrom::try_from" and X[2] in (("usize", "u64"),) \
+            and crate.prog.config.get("pointer_width") == 64:
+        return True, "WIDTH64"
+    if X[0] == "site":
+        ev = facts.an_call_at(X[1])
+        if ev is not None and ev["key"] in ("std::thread::join_handle::JoinHandle::join",
+                                            "std::thread::scoped::ScopedJoinHandle::join"):
+            from .conc import workers_panic_free
+            ok, why = workers_panic_free(crate, an.f["root"])
+            if ok:
+                return True, "PANICFREE"
+            return False, ("worker-may-panic", why)
+        if ev is not None and ev["key"] == "std::sync::poison::mutex::Mutex::lock":
+            from .conc import workers_panic_free
+            ok, why = workers_panic_free(crate, an.f["root"])
+            if ok:
+                return True, "PANICFREE"
+            return False, ("worker-may-panic", why)
+    return False, ("need-variant", X, want)
+
+
+def discharge_set_len(s, facts):
+    an = s.an
+    ev = s.ev
+    R_t, n = ev["args"][0], ev["args"][1]
+    if n == ("const", "usize", 0):
+        return True, "SHRINK0"
+    if not (R_t[0] == "addr" and R_t[2] is None):
+        return False, "set_len on unknown vector"
+    R = R_t[1]
+    prev = an.term_of.get((R, ev["vers"].get(R, ("e",))))
+    if not (prev and prev[0] == "call" and prev[1] == "alloc::vec::Vec::with_capacity" and prev[3][0] == n):
+        return False, ("capacity-unknown", prev)
+    # INIT: a loop over 0..n that writes every cell follows on every path to return
+    for ev2 in an.events:
+        if ev2["k"] != "call" or ev2["key"] != "core::iter::traits::iterator::Iterator::next":
+            continue
+        d = facts.iter_desc(ev2)
+        if not (d and d != "CYCLE" and d[0] == "agg" and d[1] == "adt" and d[2][0].endswith("ops::range::Range")
+                and d[3] == (("const", "usize", 0), n)):
+            continue
+        hb = ev2["b"]
+        if not an.cfg.postdominates(hb, s.b):
+            continue
+        item = ("field", ("dc", ev2["res"], "Some"), "0")
+        body = an.cfg.loops.get(an.cfg.loop_of(hb), set())
+        for ev3 in an.events:
+            if ev3["k"] == "call" and ev3["key"] == "core::ptr::write" and ev3["b"] in body:
+                C, idx, kind = ptr_root(ev3["args"][0])
+                if kind == "buf" and C[0] == "at" and C[1] == R and idx == item and complete_scan(an, facts, ev2):
+                    return True, "INIT-LOOP"
+    return False, "no initialising loop found"
+
+
+def complete_scan(an, fx, next_ev):
+    """the natural loop driven by this Iterator::next call is left only on the
+    iterator's None edge (panic exits aside)"""
+    hb = next_ev["b"]
+    header = an.cfg.loop_of(hb)
+    if header is None:
+        return False
+    body = an.cfg.loops[header]
+    res = next_ev["res"]
+    for x in body:
+        for tg, lab in an.cfg.succ[x]:
+            if tg in body:
+                continue
+            # exit edge
+            if not an.cfg.succ[tg] and an.blocks[tg]["term"]["k"] != "return" and tg not in an.cfg.can_return:
+                continue   # leads only to a panic
+            ev = fx.ev_term.get(x)
+            if ev is None or ev["k"] != "switch":
+                return False
+            D = ev["discr"]
+            if not (D[0] == "discr" and D[1] == res):
+                return False
+            atoms = fx.edge_atoms(x, lab, tg)
+            if ("variant", res, "None") not in atoms:
+                return False
+    return True
+
+
+# ---------------------------------------------------------------------------
+# site naming, trusted table, rule runner
+
+def local_var_name(an, local, depth=0):
+    """user-visible variable name behind a MIR local (following copies/reborrows)"""
+    f = an.f
+    nm = f["locals"][local].get("name")
+    if nm:
+        return nm
+    if depth > 6:
+        return None
+    defs = []
+    for b in an.cfg.rpo:
+        blk = an.blocks[b]
+        for s in blk["stmts"]:
+            if s["k"] == "assign" and s["place"]["local"] == local and not s["place"]["proj"]:
+                defs.append(("stmt", s))
+        t = blk["term"]
+        if t["k"] == "call" and t["dest"]["local"] == local and not t["dest"]["proj"]:
+            defs.append(("call", t))
+    if len(defs) != 1:
+        return None
+    kind, d = defs[0]
+    if kind == "stmt":
+        rv = d["rv"]
+        p = None
+        if rv["k"] == "use" and rv["op"]["k"] in ("copy", "move"):
+            p = rv["op"]["place"]
+        elif rv["k"] in ("ref", "rawptr"):
+            p = rv["place"]
+        elif rv["k"] == "cast" and rv["op"]["k"] in ("copy", "move"):
+            p = rv["op"]["place"]
+        if p is not None:
+            return place_var_name(an, p, depth + 1)
+        return None
+    key, fn = an.call_info(d)
+    if key in E.RET_ARG0 or key in E.RET_ARG0_BUF or key in E.DEREF_KEYS:
+        a = d["args"][0]
+        if a["k"] in ("copy", "move"):
+            return place_var_name(an, a["place"], depth + 1)
+    return None
+
+
+def place_var_name(an, p, depth=0):
+    f = an.f
+    # closure upvars
+    for uv in f.get("upvars", []):
+        up = uv["place"]
+        if up["local"] == p["local"] and len(p["proj"]) >= len(up["proj"]) and \
+                all(a["k"] == b["k"] and a.get("idx") == b.get("idx") for a, b in zip(up["proj"], p["proj"])):
+            rest = p["proj"][len(up["proj"]):]
+            return uv["name"] + "".join("." + e["name"] for e in rest if e["k"] == "field")
+    nm = local_var_name(an, p["local"], depth)
+    if nm is None:
+        return None
+    return nm + "".join("." + e["name"] for e in p["proj"] if e["k"] == "field")
+
+
+def site_root_name(s):
+    an = s.an
+    if s.kind == "deref":
+        return place_var_name(an, {"local": s.place["local"], "proj": []}) or "?"
+    if s.kind.startswith("call:"):
+        t = an.blocks[s.b]["term"]
+        if t["args"] and t["args"][0]["k"] in ("copy", "move"):
+            return place_var_name(an, t["args"][0]["place"]) or "?"
+        return "?"
+    if s.kind.startswith("cast:"):
+        b, i = s.stmt
+        st = an.blocks[b]["stmts"][i]
+        op = st["rv"]["op"]
+        if op["k"] in ("copy", "move"):
+            return place_var_name(an, op["place"]) or "?"
+    return "?"
+
+
+def site_key(crate, s):
+    return "%s|%s|%s" % (crate.prog.pretty.get(s.fn, s.fn), s.kind, site_root_name(s))
+
+
+def load_trusted(path):
+    import json
+    try:
+        return json.load(open(path))
+    except FileNotFoundError:
+        return []
+
+
+def run_mem(crate, trusted_path="/verif/tables/trusted_sites.json"):
+    """-> list of result dicts, one per unsafe operation of the crate"""
+    trusted = load_trusted(trusted_path)
+    tindex = {}
+    for e in trusted:
+        tindex[(e["fn"], e["kind"], e["root"])] = e
+    results = []
+    per_fn = {}
+    for p in crate.fn_paths():
+        an = crate.an(p)
+        sites = inventory(an)
+        if not sites:
+            continue
+        fx = crate.fx(p)
+        for s in sites:
+            try:
+                ok, how = discharge_site(s, fx)
+            except Exception as ex:  # a crash of the prover is never a discharge
+                ok, how = False, ("checker-error", repr(ex))
+            s.status, s.how = ok, how
+            per_fn.setdefault(p, []).append(s)
+    # trusted table and CALLEE second pass (iterate: callee clean = all its sites ok)
+    used_trusted = set()
+    for p, sites in per_fn.items():
+        for s in sites:
+            if s.status is False:
+                k = (crate.prog.pretty.get(p, p), s.kind, site_root_name(s))
+                if k in tindex:
+                    e = tindex[k]
+                    used_trusted.add(k)
+                    if not trusted_guard_ok(crate, s, e):
+                        s.how = ("trusted-site-lost-its-guard", e.get("requires_guard"))
+                        continue
+                    s.status, s.how = True, "TRUSTED"
+                    s.trust = e
+    changed = True
+    while changed:
+        changed = False
+        for p, sites in per_fn.items():
+            for s in sites:
+                if s.status is None:
+                    cs = per_fn.get(s.callee, [])
+                    if any(x.status is False for x in cs):
+                        s.status, s.how = False, ("callee-has-undischarged-site", s.callee)
+                        changed = True
+                    elif all(x.status is True for x in cs):
+                        s.status, s.how = True, "CALLEE-CLEAN"
+                        changed = True
+    for p, sites in per_fn.items():
+        for s in sites:
+            if s.status is None:
+                s.status, s.how = False, ("callee-cycle", s.callee)
+            results.append(s)
+    unused = [e for e in trusted if (e["fn"], e["kind"], e["root"]) not in used_trusted]
+    return results, unused
+
+
+def trusted_guard_ok(crate, s, e):
+    """a trusted site keeps its (structural) guard: some upper bound on the index /
+    pointer is known at the site"""
+    g = e.get("requires_guard")
+    if not g:
+        return True
+    an = s.an
+    fx = crate.fx(an.path)
+    if g == "index":
+        I = getattr(s, "idx", None)
+        if I is None and s.kind.startswith("call:") and len(s.ev["args"]) > 1:
+            I = s.ev["args"][1]
+        if I is None:
+            return False
+        return fx.holds(s.b, lambda rel: any(rel.lt(I, y) for y in rel.universe((I,)) if y != I))
+    if g == "pointer":
+        P = getattr(s, "ptr", None)
+        if P is None and s.kind.startswith("call:"):
+            P = s.ev["args"][0]
+        if P is None:
+            return False
+        return fx.holds(s.b, lambda rel: any(rel.lt(P, y) for y in rel.universe((P,)) if y != P))
+    return True
